@@ -4,7 +4,7 @@
 From XcpModel Require Import Base Meta.
 From XcpProofs Require Import MetaProofs.
 From XcpModel Require Import Extracted.
-From XcpProofs Require Import ExtractedOk.
+From XcpProofs Require Import XMeta.
 From XcpModel Require Import Walker Ops ConcBlock ConcOutcome.
 From XcpProofs Require Import OpsProofs ConcBlockProofs ConcOutcomeProofs.
 From Coq Require Import Permutation.
@@ -109,3 +109,13 @@ Print Assumptions C10_src_pin_common_copy_owner.
 Print Assumptions C10_src_pin_common_copy_permissions.
 Print Assumptions C10_src_pin_common_copy_timestamps.
 Print Assumptions C10_src_pin_operations_finalise_copy.
+
+(* ---- further glue on this property's path, pinned token for token (an edit re-opens the obligation; the run then
+   looks for a failing input) ---- *)
+From XcpPins Require Import Pin_common_copy_xattr Pin_operations_new.
+Theorem C10_src_pin_common_copy_xattr : pin_unchanged name_common_copy_xattr.
+Proof. exact pin_common_copy_xattr. Qed.
+Theorem C10_src_pin_operations_new : pin_unchanged name_operations_new.
+Proof. exact pin_operations_new. Qed.
+Print Assumptions C10_src_pin_common_copy_xattr.
+Print Assumptions C10_src_pin_operations_new.
